@@ -331,6 +331,8 @@ type retryCase struct {
 	CCS    bool   // the client sends its compatibility change_cipher_spec before the second hello (RFC 8446 D.4)
 	SNI    string // server name and ALPN list of the first inner hello
 	ALPN   []string
+	Mode   string // seq: the relay writes the HelloRetryRequest, then reads | pending: its Read is already blocked when the HRR is written | during: the client answers while the HRR's Write is still in progress
+	Split  int    // seq only: the HRR reaches Write in two pieces cut here (0: whole)
 }
 
 func retryCases(r *rand.Rand) []retryCase {
@@ -342,9 +344,12 @@ func retryCases(r *rand.Rand) []retryCase {
 	plan := gen.Plan(r, o)
 	hrr := gen.ServerHelloRecord(r, true, plan.OuterBase.SID)
 	var out []retryCase
-	classOf := map[string]string{"G": "", "P": "illegal", "V": "illegal", "N": "missing", "I": "illegal", "S": "illegal", "E": "illegal", "B": "decrypt", "M": "illegal", "A": "illegal", "R": "illegal", "C": "illegal"}
-	// R: the same ALPN protocols in another order; C: the inner server name in another letter case
-	for _, kind := range []string{"G", "P", "V", "N", "I", "S", "E", "B", "M", "A", "R", "C"} {
+	classOf := map[string]string{"G": "", "P": "illegal", "V": "illegal", "N": "missing", "I": "illegal", "S": "illegal", "E": "illegal", "B": "decrypt", "M": "illegal", "A": "illegal", "R": "illegal", "C": "illegal", "K": "", "Q": "illegal", "Z": "illegal"}
+	// R: the same ALPN protocols in another order; C: the inner server name in another letter case;
+	// K: a well-formed second hello whose extension list legally differs from the first (RFC 8446 4.1.2:
+	// a cookie is added, early_data goes, padding changes, key_share is replaced)
+	// Q / Z: the second ClientHelloOuter has no server_name extension / an empty host name
+	for _, kind := range []string{"G", "P", "V", "N", "I", "S", "E", "B", "M", "A", "R", "C", "K", "Q", "Z"} {
 		s1 := gen.Seal(plan.OuterBase, 1, key, suite, plan.Enc.Body(), nil, 0x0301)
 		e2 := *plan.Enc
 		e2.Random = gen.RandBytes(r, 32)
@@ -378,6 +383,8 @@ func retryCases(r *rand.Rand) []retryCase {
 					e2.Exts[i] = gen.SNI("INNER.example")
 				}
 			}
+		case "K":
+			e2.Exts = append(e2.Exts, gen.Ext{Type: 44, Data: gen.LP16(gen.RandBytes(r, 8+r.IntN(40)))}, gen.Ext{Type: 21, Data: make([]byte, r.IntN(30))})
 		case "P":
 			for i, e := range base2.Exts {
 				if e.Type == 0 {
@@ -388,6 +395,14 @@ func retryCases(r *rand.Rand) []retryCase {
 			for i, e := range base2.Exts {
 				if e.Type == 43 {
 					base2.Exts[i] = gen.Versions(0x0303, 0x0302)
+				}
+			}
+		case "Q":
+			base2.Exts = slices.DeleteFunc(base2.Exts, func(e gen.Ext) bool { return e.Type == 0 })
+		case "Z":
+			for i, e := range base2.Exts {
+				if e.Type == 0 {
+					base2.Exts[i] = gen.SNI("")
 				}
 			}
 		}
@@ -420,7 +435,12 @@ func retryCases(r *rand.Rand) []retryCase {
 			// another deployment's key under the same one-byte id (other public name), listed first
 			keys = echKeys(gen.NewKey(r, key.ID, "elsewhere-public.example", gen.AllSuites), key)
 		}
-		out = append(out, retryCase{Kind: kind, Class: classOf[kind], Keys: keys, First: s1.Rec, HRR: hrr, Second: second, CCS: r.IntN(2) == 0, SNI: "inner.example", ALPN: alpn})
+		rc := retryCase{Kind: kind, Class: classOf[kind], Keys: keys, First: s1.Rec, HRR: hrr, Second: second, CCS: r.IntN(2) == 0, SNI: "inner.example", ALPN: alpn,
+			Mode: []string{"seq", "seq", "pending", "during"}[r.IntN(4)]}
+		if rc.Mode == "seq" && r.IntN(3) == 0 {
+			rc.Split = 1 + r.IntN(len(hrr)-1)
+		}
+		out = append(out, rc)
 	}
 	return out
 }
@@ -436,13 +456,37 @@ func runRetryCase(rc retryCase, readSize int) (s *connh.Sess, first connh.NewRes
 	}
 	s.Read(70000)
 	s.Names()
-	s.Write(rc.HRR)
+	var chunks [][]byte
 	if rc.CCS {
-		ccs := gen.Record(20, 0x0303, []byte{1})
-		s.Feed([][]byte{ccs, rc.Second}, "eof")
-		s.Read(70000) // the change_cipher_spec record
-	} else {
-		s.Feed([][]byte{rc.Second}, "eof")
+		chunks = append(chunks, gen.Record(20, 0x0303, []byte{1}))
+	}
+	chunks = append(chunks, rc.Second)
+	switch rc.Mode {
+	case "pending", "during":
+		// two goroutines, as in a relay: the client's answer meets a Read that was already waiting
+		// (pending), or arrives while the Write of the HelloRetryRequest has not returned yet (during)
+		var rd0 connh.IORes
+		if rc.Mode == "pending" {
+			_, rd0 = s.WriteWhileReadPending(70000, rc.HRR, chunks, "eof")
+		} else {
+			_, rd0 = s.WriteAnsweredDuring(70000, rc.HRR, chunks, "eof")
+		}
+		if !rc.CCS {
+			rd = rd0
+			s.Names()
+			return
+		}
+	default:
+		if rc.Split > 0 && rc.Split < len(rc.HRR) {
+			s.Write(rc.HRR[:rc.Split])
+			s.Write(rc.HRR[rc.Split:])
+		} else {
+			s.Write(rc.HRR)
+		}
+		s.Feed(chunks, "eof")
+		if rc.CCS {
+			s.Read(70000) // the change_cipher_spec record
+		}
 	}
 	rd = s.Read(readSize)
 	s.Names() // what the Conn reports does not drift with the retry
